@@ -17,18 +17,19 @@ import (
 )
 
 type Config struct {
-	Seed       int64
-	Steps      int
-	Profile    gen.Profile
-	Genesis    string // variant name, or "" when GenesisDoc is given
-	GenesisDoc map[string]json.RawMessage
-	Monitors   []eng.Monitor
-	Rep        *eng.Reporter
-	Raw        bool
-	Bootstrap  bool
-	Whale      bool       // add the deterministic extreme-magnitude segment after the bootstrap
-	App        *chain.App // optional pre-built app
-	SeedTag    string
+	Seed         int64
+	Steps        int
+	Profile      gen.Profile
+	Genesis      string // variant name, or "" when GenesisDoc is given
+	GenesisDoc   map[string]json.RawMessage
+	Monitors     []eng.Monitor
+	Rep          *eng.Reporter
+	Raw          bool
+	Bootstrap    bool
+	ExponentTail bool       // append the deterministic exponent-limit segment (amounts like 1e100000) at the end of the run
+	Whale        bool       // add the deterministic extreme-magnitude segment after the bootstrap
+	App          *chain.App // optional pre-built app
+	SeedTag      string
 	// Quiesce is called every QuiesceEvery transactions with the chain committed (between blocks).
 	QuiesceEvery int
 	Quiesce      func(e *eng.Engine, g *gen.Gen)
@@ -114,6 +115,9 @@ func Exec(c Config) (res Result) {
 		e.Exec(*tx)
 		sinceQ++
 		refresh()
+	}
+	if c.ExponentTail {
+		g.ExponentTail(e, refresh)
 	}
 	// final: one more block so that the last transactions see a BeginBlock, then quiesce
 	e.NextBlock(bt.Next(e.Cur))
